@@ -313,7 +313,7 @@ fn main() {
             run_ws_case(&bases, case["index"].as_u64().unwrap_or(0), &mut Stats::default())
         },
     );
-    let cases = h.tier.pick(50_000, 8_000_000);
+    let cases = h.tier.pick(150_000, 8_000_000);
     h.check(
         "c11.random",
         "proptest tapes -> a base message of 1-4 units over the fx fixture (valid units and units with parameter-count, data-kind, range, boolean, undefined-header or handler faults) and 3 variants each: per mnemonic the other declared form (short<->long) where the tree has one, random case per letter, random white space (all 32 byte values) of length 0-4 in the five slots, CR LF; observations through run and process must be identical; non-trivial = variant differing in >= 2 kinds of variation or using a white-space byte other than blank/tab/CR",
